@@ -197,14 +197,16 @@ fn small_idx(rng: &mut Rng, n: usize) -> u8 {
 fn gen_seed_for(rng: &mut Rng, w: &World, naccts: usize, datalens: &[usize]) -> Seed {
     match rng.below(10) {
         0..=2 => {
-            let l = rng.below(9) as usize;
+            let l = match rng.below(8) { 0 => rng.range(9, 30) as usize, 1 => *rng.pick(&[16usize, 29, 30]), _ => rng.below(9) as usize };
             Seed::Literal { bytes: rng.bytes(l) }
         }
         3..=5 => {
-            let l = match rng.below(6) {
+            let l = match rng.below(8) {
                 0 => 0,
                 1 => 32,
                 2 => 33,
+                3 => rng.range(17, 31),
+                4 if rng.chance(1, 2) => rng.range(34, 255),
                 _ => rng.range(1, 16),
             } as usize;
             let room = w.ix.len().saturating_sub(l);
@@ -219,10 +221,12 @@ fn gen_seed_for(rng: &mut Rng, w: &World, naccts: usize, datalens: &[usize]) -> 
         _ => {
             let a = small_idx(rng, naccts);
             let dl = datalens.get(a as usize).copied().unwrap_or(10);
-            let l = match rng.below(5) {
+            let l = match rng.below(7) {
                 0 => 0,
                 1 => 32.min(dl),
                 2 => 33,
+                3 => rng.range(13, 31) as usize,
+                4 if rng.chance(1, 2) => rng.range(34, 255) as usize,
                 _ => rng.range(1, 12) as usize,
             };
             let room = dl.saturating_sub(l);
